@@ -544,6 +544,13 @@ def shrink(cls, t, hist, prop, kind, max_runs=300):
 C11_CORE_SHAPES = ('add;rm', 'add;add;rm', 'add;rm;add')
 
 
+def is_restore_shape(hist):
+    """additions, one removal, one addition of the removed child's name"""
+    if len(hist) < 4 or hist[-1][0] != 'add' or hist[-2][0] != 'rm' or any(op[0] != 'add' or op[2] is not None for op in hist[:-2]):
+        return False
+    return hist[-1][2] is None and hist[-1][1] == hist[hist[-2][1] % (len(hist) - 2)][1]
+
+
 def canonical_rm(hist):
     out = []
     nlive = 0
@@ -675,6 +682,11 @@ class Collector:
                 continue
             if len(h) <= CORE_OPS:
                 sig = signature(self.t, h, status, p, kind, detail)
+                self.viol.append({'sig': sig, 'case': {'type': self.t, 'hist': h}, 'detail': detail})
+                continue
+            if core and p == 'C11' and is_restore_shape(h) and all(x == 'ok' for x in status):
+                # the remove-and-restore core is seed independent and enumerated in both tiers: judged by exact case, unshrunk
+                sig = {'type': self.t, 'kind': kind, 'layer': 'restore', 'case': case_string(canonical_rm(h))}
                 self.viol.append({'sig': sig, 'case': {'type': self.t, 'hist': h}, 'detail': detail})
                 continue
             pre = (kind, mech_class(self.t, h, status), tuple(failed_pairs(h, status)), detail.get('site'))
